@@ -3,6 +3,8 @@
 Proof: coq/props/C11.v (window iff-lemmas, add_nodes characterisation, safety by a counting argument).
 Translator: harness/translate_window.py regenerates the two window formulas from the source of
 get_time_window into coq/gen/WindowGen.v; coq/gen/WindowGen_eq.v proves them equal to the hand model.
+Generated model: harness/translate_mirp.py regenerates __init__ / add_node / add_nodes (and the arc builders) into
+coq/gen/MirpGen.v; coq/genprops/C11_gen.v proves them equal to the hand model (ctx.gen_step, notes/C11_gen.md).
 Tie: the real MIRP is driven with exact rationals (props/xq.py); get_time_window values and the complete
 state after add_nodes are compared with the Gallina model inside Coq (Qeq).
 Oracle: the property's own predicate on the implementation's nodes, formula-free: the inventory level at
@@ -236,6 +238,11 @@ def translator_step(ctx):
 def run(ctx):
     ctx.prove()
     translator_step(ctx)
+    import translate_mirp as TM
+    ctx.gen_step("mirp", TM.translate, "C11_gen",
+                 "harness/translate_mirp.py (ast -> Gallina printer for the plain-Python methods of class MIRP: __init__, "
+                 "add_node, add_arc, add_nodes, add_travel_arcs, add_entry_arcs, add_exit_arcs, estimate_high_cost) and the "
+                 "meaning given to its combinators in coq/theories/PyMirp.v")
     rng = ctx.rng
     n = 300 if ctx.quick else 5000
     n_win = 120 if ctx.quick else 1500
